@@ -161,3 +161,13 @@ Definition jwt_pres_claims (min : bool) (m : obj) : obj :=
 Definition same_members (a b : obj) : bool :=
   Nat.eqb (List.length a) (List.length b)
   && forallb (fun kv => match lookup b (fst kv) with Some v => json_eqb (snd kv) v | None => false end) a.
+
+(* a formatter given as a table (the generated probe table, the recorded cases) *)
+Fixpoint fmt_of (t : list (Z * string)) (z : Z) : string :=
+  match t with [] => "" | (k, v) :: r => if Z.eqb z k then v else fmt_of r z end.
+Definition probe_agrees (fmt : Z -> string) (pr : obj * option obj) : bool :=
+  match decode_cred_jwt fmt (fst pr), snd pr with
+  | Some c, Some o => same_members c o
+  | None, None => true
+  | _, _ => false
+  end.
